@@ -64,10 +64,91 @@ def gen_cases(tier, seed):
                 "_cost": nu * setup.det3(sm),
             }
             cases.append(c)
+    # kind directions: sufficiency of the generated displacement set alone (no forces, no solver - cheap, so many supercell matrices with
+    # entries up to 3, where the site-symmetry matrices in the supercell basis are no longer made of 0 and +-1)
+    for b in range(24 if tier == "quick" else 240):
+        name = crystals.ZOO[int(rng.integers(len(crystals.ZOO)))]  # (non-magnetic: the harness' own symmetry search does not know moments)
+        nu = crystals.natoms(name)
+        mats = []
+        tries = 0
+        while len(mats) < 8 and tries < 20000:
+            tries += 1
+            m = rng.integers(-2, 4, size=(3, 3))
+            d = setup.det3(m)
+            if 0 < d * nu <= 64 and (m != np.diag(np.diagonal(m))).any():
+                mats.append(m.tolist())
+        if mats:
+            cases.append({"kind": "directions", "crystal": {"name": name, "order": ["asis", "random"][int(rng.integers(2))], "order_seed": int(rng.integers(1000))}, "mats": mats,
+                          "is_plusminus": ["auto", True, False][int(rng.integers(3))], "is_diagonal": bool(rng.integers(2)), "is_trigonal": bool(rng.integers(4) == 0), "_cost": 30})
     return cases
 
 
+def _directions_case(c):
+    """Every supercell atom is the image of a displaced atom, and for each displaced atom the displacements together with their images under the
+    atom's site-symmetry group span three dimensions (the condition under which first-order finite differences determine its rows)."""
+    from vlib.gen import setup
+
+    viol, keys, obs = [], [], {}
+    for S in c["mats"]:
+        try:
+            ph, cd = setup.build_phonopy({"crystal": c["crystal"], "smat": S})
+        except Exception as e:
+            obs["directions_build_refused"] = obs.get("directions_build_refused", 0) + 1
+            obs.setdefault("directions_build_refused_why", [])
+            if len(obs["directions_build_refused_why"]) < 2:
+                obs["directions_build_refused_why"].append("%s %s: %r" % (c["crystal"]["name"], S, e))
+            continue
+        ph.generate_displacements(distance=0.01, is_plusminus=c["is_plusminus"], is_diagonal=c["is_diagonal"], is_trigonal=c["is_trigonal"])
+        sc = ph.supercell
+        L, x = np.array(sc.cell), np.array(sc.scaled_positions)
+        import spglib
+
+        from vlib.gen import setup as _s
+
+        ds = spglib.get_symmetry((L, x, _s.numbers_of(sc.symbols)), symprec=1e-5)  # the harness' own call, species from the symbol strings
+        if ds is None:
+            continue
+        rots, trans = np.array(ds["rotations"]), np.array(ds["translations"])
+        firsts = {}
+        for fa in ph.dataset["first_atoms"]:
+            firsts.setdefault(int(fa["number"]), []).append(np.array(fa["displacement"], float))
+        # coverage: orbit of the displaced atoms under the space group = all atoms
+        covered = set()
+        for a in firsts:
+            img = x[a] @ rots.transpose(0, 2, 1) + trans  # (nops, 3): R x_a + t
+            for y in img:
+                dd = x - y
+                dd -= np.rint(dd)
+                covered.update(np.where(np.abs(dd @ L).max(axis=1) < 1e-4)[0].tolist())
+        obs["directions_supercells"] = obs.get("directions_supercells", 0) + 1
+        big = int(np.abs(rots).max() > 1)
+        obs["directions_site_matrices_with_entries_gt1"] = obs.get("directions_site_matrices_with_entries_gt1", 0) + big
+        if len(covered) != len(sc):
+            viol.append({"kind": "displacements_insufficient", "msg": "supercell %s: %d of %d atoms are not symmetry images of any displaced atom" % (S, len(sc) - len(covered), len(sc)), "smat": S})
+            continue
+        Li = np.linalg.inv(L)
+        for a, dl in firsts.items():
+            vecs = []
+            for R, t in zip(rots, trans):
+                dd = R @ x[a] + t - x[a]
+                dd -= np.rint(dd)
+                if np.abs(dd @ L).max() < 1e-4:  # site symmetry of atom a
+                    Rc = L.T @ R @ Li.T
+                    vecs += [Rc @ d_ for d_ in dl]
+            sv = np.linalg.svd(np.array(vecs), compute_uv=False)
+            if len(sv) < 3 or sv[2] < 1e-6 * sv[0]:
+                viol.append({"kind": "displacements_insufficient", "msg": "supercell %s, displaced atom %d: its %d displacement(s) and their images under the site-symmetry group span only %d dimension(s) "
+                             "(singular values %s)" % (S, a + 1, len(dl), int((sv > 1e-6 * sv[0]).sum()), np.round(sv, 6).tolist()), "smat": S, "n_displacements": len(ph.dataset["first_atoms"]),
+                             "is_diagonal": c["is_diagonal"], "is_plusminus": c["is_plusminus"]})
+                break
+        keys.append("dir|%s|%s|%s|%s" % (c["crystal"]["name"], S, c["is_diagonal"], c["is_plusminus"]))
+    return {"viol": viol[:6], "nontrivial": bool(keys), "keys": keys, "obs": obs, "evals": len(c["mats"]),
+            "sample": {"kind": "directions", "crystal": c["crystal"], "first": c["mats"][:2]}}
+
+
 def run_case(c):
+    if c.get("kind") == "directions":
+        return _directions_case(c)
     r = _run_one(c)
     if c.get("twin") and not r.get("skip") and not r.get("error"):
         c2 = dict(c, mseed=c["mseed"] + 1)
